@@ -111,12 +111,67 @@ def make_program(seed, idx, depth):
     return spec, e, state
 
 
+def _calls_inside(e, fname):
+    k = e[0]
+    if k == 'call':
+        return e[1] == fname or any(_calls_inside(a, fname) for a in e[2])
+    if k in '+-*/':
+        return _calls_inside(e[1], fname) or _calls_inside(e[2], fname)
+    if k in ('neg', '^'):
+        return _calls_inside(e[1], fname)
+    return False
+
+
+def _zero(e):
+    """structurally zero: a - a, and products / quotients / negations of such a term"""
+    k = e[0]
+    if k == '-':
+        return e[1] == e[2]
+    if k == '*':
+        return _zero(e[1]) or _zero(e[2])
+    if k in ('/', 'neg', '^'):
+        return _zero(e[1])
+    return False
+
+
+def _literal(e):
+    k = e[0]
+    if k == 'c' or _zero(e) or (k == '/' and e[1] == e[2]):       # (a / a folds to 1)
+        return True
+    if k in '+-*/':
+        return _literal(e[1]) and _literal(e[2])
+    if k in ('neg', '^'):
+        return _literal(e[1])
+    if k == 'call':
+        return all(_literal(a) for a in e[2])
+    return False
+
+
+def _degenerate(e):
+    """a quotient whose denominator is identically zero (r2 - r2), or a call whose arguments reduce to literals
+    (absv((v - v)*v)): sympy folds both before PyRates sees them; neither is part of the generated grammar.  Purely
+    structural (no computer algebra in the harness)."""
+    k = e[0]
+    if k == '/' and _zero(e[2]):
+        return 'divides by an expression that is identically zero'
+    if k == 'call':
+        if all(_literal(a) for a in e[2]):
+            return 'a function is called on arguments that reduce to literals'
+        return next((r for r in (_degenerate(a) for a in e[2]) if r), None)
+    if k in '+-*/':
+        return _degenerate(e[1]) or _degenerate(e[2])
+    if k in ('neg', '^'):
+        return _degenerate(e[1])
+    return None
+
+
 def _directly_nested(e):
-    """f(... f(...) ...) where an argument of a call IS a call of the same function"""
+    """f(... f(...) ...): a call of f somewhere inside an argument of a call of f (directly, or behind a sign or an
+    arithmetic operation)"""
     k = e[0]
     if k == 'call':
         for a in e[2]:
-            if a[0] == 'call' and a[1] == e[1]:
+            if _calls_inside(a, e[1]):
                 return True
         return any(_directly_nested(a) for a in e[2])
     if k in '+-*/':
@@ -339,6 +394,10 @@ def run(tier='quick', seed=0, only=None, verbose=False):
             rep.inconcl(dict(key=job['key'], equation=r['eq'], what='expression divides by zero'))
             continue
         if 'compile_error' in r:
+            why = _degenerate(make_program(job['seed'], job['idx'], job['depth'])[1])
+            if why:
+                rep.inconcl(dict(key=job['key'], equation=r['eq'], what=f"outside the generated grammar: {why}"))
+                continue
             rec = dict(property='C05', key=job['key'], equation=r['eq'], kind='compile-raises',
                        what=f"{job['key']}: equation `{r['eq']}` over the documented grammar is rejected: "
                             f"{r['compile_error'][:200]}")
